@@ -80,7 +80,7 @@ OptimizationStatus GradientDescent(const ObjectiveFunctionSingle &func, const Gr
             }
             state.adaptive_stepsize /= decrease_coeff;
             status.performed_iterations++;
-        } while (lhs > rhs + TasGrid::Maths::num_tol);
+        } while (not (lhs <= rhs + TasGrid::Maths::num_tol)); // written so that a NaN objective value fails the descent test
         std::swap(xStep, state.x);
         std::swap(fxStep, fx);
         state.adaptive_stepsize *= decrease_coeff; // Offset the do-while loop.
